@@ -651,6 +651,13 @@ def build_misc(d):
         a = pyrtl.Input(4, 'a')
         o = pyrtl.Output(8, 'o')
         o <<= rom[a]
+    elif k == 'mem_write_only':
+        # a memory that is only ever written (a log): no read port at all, multi-bit address and data
+        m = pyrtl.MemBlock(bitwidth=w, addrwidth=2, name='log', asynchronous=True)
+        a, d_, we = pyrtl.Input(2, 'wa'), pyrtl.Input(w, 'wd'), pyrtl.Input(1, 'we')
+        m[a] <<= pyrtl.MemBlock.EnabledWrite(~d_, we)
+        o = pyrtl.Output(w, 'o')
+        o <<= d_ & 1
     elif k == 'rom_many_ports':
         # more read ports than one ROM instance allows: build_new_roms makes further instances behind the scenes, each of
         # which must be the same ROM (contents, padding)
@@ -681,6 +688,7 @@ def misc_cases():
         out.append({'fam': 'MISC', 'kind': k, 'w': 3})
     out.append({'fam': 'MISC', 'kind': 'rom_sparse_pad'})
     out.append({'fam': 'MISC', 'kind': 'rom_many_ports'})
+    out.append({'fam': 'MISC', 'kind': 'mem_write_only', 'w': 3})
     out.append({'fam': 'MISC', 'kind': 'dup_regs', 'w': 1})
     out.append({'fam': 'MISC', 'kind': 'dup_regs', 'w': 3})
     return out
